@@ -50,8 +50,8 @@ prop('C04', 'c04', '4 (C04)')
 prop('C05', 'c05', '4 (C05)')
 prop('C06', 'c06', '5 (C06)')
 prop('C07', 'c07', '5 (C07)')
-prop('C08', 'c08', '5 (C08)')
-prop('C09', 'c09', '5 (C09)')
+prop('C08', 'c08', '5 (C08)', gens=('GenArith.v', 'GenLoops.v', 'GenAccumulator.v'))
+prop('C09', 'c09', '5 (C09)', gens=('GenArith.v', 'GenLoops.v', 'GenAccumulator.v'))
 prop('C10', 'c10', '5 (C10)')
 prop('C11', 'c11', '6 (C11)')
 prop('C12', 'c12', '6 (C12)', gens=('GenArith.v', 'GenMaxSize.v'))
